@@ -150,6 +150,100 @@ def procOpenText : String := {lean_str(_norm(bo))}
 def procCloseText : String := {lean_str(_norm(bc))}
 """
 
+
+# ------------------------------------------------------------------------------------------------------------------------
+# Extension round: File_Open / File_Del as statement PROGRAMS, the `with_in` macro as a TERM program, start_in / stop_in as records
+
+def top_statements(body):
+    """the top-level statements of a (comment-stripped) function body, whitespace-normalised"""
+    b = _norm(body); out = []; i = 0
+    while i < len(b):
+        if b[i] == ' ': i += 1; continue
+        m = re.match(r'(if|while|for|switch)\s*\(', b[i:])
+        if m:
+            k = balanced(b, b.index('(', i)); j = k
+            while j < len(b) and b[j] == ' ': j += 1
+            if j < len(b) and b[j] == '{': e = balanced(b, j, '{', '}')
+            else:
+                e = b.find(';', j); e = len(b) if e < 0 else e + 1
+            while True:
+                me = re.match(r'\s*else\s*(if\s*\()?', b[e:])
+                if not me: break
+                j = e + me.end()
+                if me.group(1):
+                    j = balanced(b, j - 1)
+                    while j < len(b) and b[j] == ' ': j += 1
+                if j < len(b) and b[j] == '{': e = balanced(b, j, '{', '}')
+                else:
+                    e2 = b.find(';', j); e = len(b) if e2 < 0 else e2 + 1
+            out.append(b[i:e].strip()); i = e
+        elif b[i] == '{':
+            e = balanced(b, i, '{', '}'); out.append(b[i:e]); i = e
+        else:
+            e = b.find(';', i); e = len(b) if e < 0 else e + 1
+            out.append(b[i:e].strip()); i = e
+    return [x for x in out if x and x != ';']
+
+FOPEN_CALL = r'fopen\s*\(\s*c_str\s*\(\s*filename\s*\)\s*,\s*c_str\s*\(\s*access\s*\)\s*\)'
+def open_program(body, closer='File_Close', field='f->file', struct_decl=r'struct File\s*\*\s*f = self;'):
+    """File_Open / File_Del statement by statement.  Tokens: closeIfHeld | fopenTo field/local | throwIfNull field/local |
+    storeLocal | ret | other <text> (anything the interpreter of Cello/FileProg.lean has no meaning for)"""
+    fld = re.escape(field); toks = []; local = None
+    for st in top_statements(body):
+        if re.fullmatch(struct_decl, st): continue
+        if re.fullmatch(r'if \(\s*' + fld + r' isnt NULL\s*\) \{ ' + closer + r'\(self\); \}', st): toks.append('.closeIfHeld'); continue
+        if re.fullmatch(fld + r' = ' + FOPEN_CALL + ';', st): toks.append('(.fopenTo .field)'); continue
+        m = re.fullmatch(r'FILE\s*\*\s*(\w+) = ' + FOPEN_CALL + ';', st)
+        if m: local = m.group(1); toks.append('(.fopenTo .loc)'); continue
+        if re.fullmatch(r'if \(\s*' + fld + r' is NULL\s*\) \{ throw\(IOError\b.*\); \}', st): toks.append('(.throwIfNull .field)'); continue
+        if local and re.fullmatch(r'if \(\s*' + local + r' is NULL\s*\) \{ throw\(IOError\b.*\); \}', st): toks.append('(.throwIfNull .loc)'); continue
+        if local and re.fullmatch(fld + r' = ' + local + ';', st): toks.append('.storeLocal'); continue
+        if re.fullmatch(r'return self;', st): toks.append('.ret'); continue
+        toks.append(f'(.other {lean_str(st[:120])})')
+    return toks
+
+class _TermParser:
+    """C expressions of the `with_in` header:  E ::= NAME | NAME '(' E {',' E} ')'"""
+    def __init__(self, txt, where):
+        self.toks = re.findall(r'[A-Za-z_]\w*|[(),]|\S', txt); self.i = 0; self.where = where; self.txt = txt
+    def peek(self): return self.toks[self.i] if self.i < len(self.toks) else None
+    def take(self, t=None):
+        x = self.peek()
+        if x is None or (t is not None and x != t): raise ExtractError(f'{self.where}: cannot read `{self.txt}`')
+        self.i += 1; return x
+    def expr(self):
+        x = self.take()
+        if not re.fullmatch(r'[A-Za-z_]\w*', x): raise ExtractError(f'{self.where}: cannot read `{self.txt}`')
+        if self.peek() == '(':
+            self.take('('); a = self.expr(); self.take(')')          # unary calls only
+            return f'(.call {lean_str(x)} {a})'
+        return {'X': '.x', 'S': '.s', 'NULL': '.null'}.get(x, f'(.name {lean_str(x)})')
+    def parse(self):
+        e = self.expr()
+        if self.peek() is not None: raise ExtractError(f'{self.where}: trailing text in `{self.txt}`')
+        return e
+
+def with_program(w_init, w_cond, w_step):
+    """the three clauses of the for loop as terms over the macro parameters X (loop variable) and S (source expression)"""
+    mi = re.fullmatch(r'var\s+(\w+)\s*=\s*(.*)', w_init)
+    mc = re.fullmatch(r'(\w+)\s+(isnt|is)\s+(\w+)', w_cond) or re.fullmatch(r'(\w+)\s*(!=|==)\s*(\w+)', w_cond)
+    ms = re.fullmatch(r'(\w+)\s*=\s*(.*)', w_step)
+    if not (mi and mc and ms): raise ExtractError(f'with_in: clauses of unexpected shape: `{w_init}` ; `{w_cond}` ; `{w_step}`')
+    tp = lambda t: _TermParser(t, 'with_in').parse()
+    neq = 'true' if mc.group(2) in ('isnt', '!=') else 'false'
+    return (f'⟨{tp(mi.group(1))}, {tp(mi.group(2))}, {tp(mc.group(1))}, {neq}, {tp(mc.group(3))}, {tp(ms.group(1))}, {tp(ms.group(2))}⟩')
+
+def start_fn(body, who):
+    """start_in / stop_in: `struct Start* s = instance(self, Start); if (s and s-><m>) { s-><m>(self); } return <self|NULL>;`"""
+    sts = top_statements(body)
+    if len(sts) != 3: raise ExtractError(f'{who}: expected three statements, found {sts}')
+    m0 = re.fullmatch(r'struct (\w+)\s*\*\s*s = instance\(self, (\w+)\);', sts[0])
+    m1 = re.fullmatch(r'if \(s and s->(\w+)\) \{ s->(\w+)\((\w+)\); \}', sts[1])
+    m2 = re.fullmatch(r'return (\w+);', sts[2])
+    if not (m0 and m1 and m2) or m0.group(1) != m0.group(2):
+        raise ExtractError(f'{who}: body of unexpected shape: {sts}')
+    return f'⟨{lean_str(m0.group(2))}, {lean_str(m1.group(1))}, {lean_str(m1.group(2))}, {lean_str(m1.group(3))}, {lean_str(m2.group(1))}⟩'
+
 def gen_file(repo):
     src = read(f'{repo}/src/File.c')
     names = sorted(set(re.findall(r'\bstatic\s+[\w\s\*]+?\b(File_\w+)\s*\([^;{]*\)\s*\{', src)))
@@ -182,9 +276,10 @@ def gen_file(repo):
     # File_Open: close-if-held, then f->file = fopen(...), then NULL test with throw IOError
     bo = bodies['File_Open']
     h = re.search(HELD, bo); fo = re.search(r'f->file\s*=\s*fopen\s*\(\s*c_str\s*\(\s*filename\s*\)\s*,\s*c_str\s*\(\s*access\s*\)\s*\)', bo)
-    if not fo: raise ExtractError('File_Open: `f->file = fopen(c_str(filename), c_str(access))` not found')
-    open_closes_first = bool(h) and h.start() < fo.start()
-    th = re.search(r'if\s*\(\s*f->file\s+is\s+NULL\s*\)\s*\{\s*throw\s*\(\s*IOError', bo[fo.end():])
+    # (extension round: a File_Open that does not store fopen's result into the field directly is no longer a translator error —
+    #  the body is extracted as a program below, `openProg`, and the theorems about that program give the verdict)
+    open_closes_first = bool(h) and bool(fo) and h.start() < fo.start()
+    th = re.search(r'if\s*\(\s*f->file\s+is\s+NULL\s*\)\s*\{\s*throw\s*\(\s*IOError', bo[fo.end():]) if fo else None
     open_throws = bool(th)
     # File_Del
     bd = bodies['File_Del']
@@ -239,11 +334,58 @@ def gen_file(repo):
     st = read(f'{repo}/src/Start.c')
     bsi, bso = func_body(st, 'start_in'), func_body(st, 'stop_in')
     norm = lambda s: re.sub(r'\s+', ' ', s).strip()
+    open_prog = open_program(bo); del_prog = open_program(bd)
+    with_prog = with_program(w_init, w_cond, w_step)
+    start_rec = start_fn(bsi, 'start_in'); stop_rec = start_fn(bso, 'stop_in')
     rows_txt = ',\n   '.join(f'⟨{lean_str(n)}, {lean_list([lean_str(c) for c in cs])}, {"true" if g else "false"}, {"true" if gf else "false"}⟩'
                              for n, cs, g, gf in rows)
     b = lambda x: 'true' if x else 'false'
     proc_txt = gen_process(src, bodies)
     return HEADER + f"""namespace CelloGen.File
+
+/-- where File_Open keeps the result of fopen: the field `f->file` or a local `FILE*` -/
+inductive Slot where
+  | field | loc
+deriving DecidableEq, Repr, Inhabited
+
+/-- one top-level statement of File_Open / File_Del (extension round: the body as a program, interpreted by Cello/FileProg.lean) -/
+inductive OStmt where
+  | closeIfHeld                 -- `if (f->file isnt NULL) {{ File_Close(self); }}`
+  | fopenTo (s : Slot)          -- `f->file = fopen(c_str(filename), c_str(access));` / `FILE* v = fopen(…);`
+  | throwIfNull (s : Slot)      -- `if (<slot> is NULL) {{ throw(IOError, …); }}`
+  | storeLocal                  -- `f->file = v;`
+  | ret                         -- `return self;`
+  | other (text : String)       -- a statement the interpreter gives no meaning to
+deriving DecidableEq, Repr, Inhabited
+
+/-- expressions of the header of `with_in` over the macro parameters -/
+inductive WTerm where
+  | x                           -- the loop variable `X`
+  | s                           -- the macro argument `S` (the source expression, spliced in textually)
+  | null
+  | name (n : String)
+  | call (fn : String) (arg : WTerm)
+deriving DecidableEq, Repr, Inhabited
+
+/-- `for(var <initVar> = <init>; <condL> isnt/is <condR>; <stepVar> = <step>)` -/
+structure WFor where
+  initVar : WTerm
+  init : WTerm
+  condL : WTerm
+  condIsnt : Bool
+  condR : WTerm
+  stepVar : WTerm
+  step : WTerm
+deriving DecidableEq, Repr, Inhabited
+
+/-- start_in / stop_in: `struct <inst>* s = instance(self, <inst>); if (s and s-><guard>) {{ s-><method>(<arg>); }} return <ret>;` -/
+structure StartFn where
+  inst : String
+  guard : String
+  method : String
+  arg : String
+  ret : String
+deriving DecidableEq, Repr, Inhabited
 
 structure Row where
   name : String
@@ -301,6 +443,14 @@ def withStepArg : String := {lean_str(w_step_arg)}
 def withStopsBound : Bool := {b(w_step_arg == 'X')}
 def startIn : String := {lean_str(norm(bsi))}
 def stopIn : String := {lean_str(norm(bso))}
+
+/-- File_Open and File_Del, statement by statement -/
+def openProg : List OStmt := {lean_list(open_prog)}
+def delProg : List OStmt := {lean_list(del_prog)}
+/-- the header of `with_in` as terms -/
+def withProg : WFor := {with_prog}
+def startInFn : StartFn := {start_rec}
+def stopInFn : StartFn := {stop_rec}
 {proc_txt}
 end CelloGen.File
 """
@@ -465,6 +615,27 @@ def gen_file_scan(repo):
         mf1 = re.fullmatch(FARM, fb)
         if not mf1: raise ExtractError(f'{W}: floating branch of unexpected shape: `{fb[:160]}`')
         flt_wide = []; flt_then = flt_else = mf1.group(1)
+    # the same branch as a CHAIN of arms (extension round): (test kind, argument, type of the object scanf stores into, what `$F(…)` wraps)
+    FARM_G = r'((?:long )?double|float) (\w+) = 0; int err = format_from\(input, pos, fmt_buf, &(\w+), &off\); if \(err < 1\) \{ throw\(FormatError, "Unable to input Float!"\); \} pos \+= off; assign\(a, \$F\((.*?)\)\);'
+    farms = []; ch = fb.strip()
+    def farm_of(kind, arg, body):
+        mb = re.fullmatch(FARM_G, body)
+        if not mb or mb.group(2) != mb.group(3): raise ExtractError(f'{W}: floating branch: arm body of unexpected shape: `{body[:160]}`')
+        return (kind, arg, mb.group(1), 'tmp' if mb.group(4).strip() == mb.group(2) else _norm(mb.group(4)))
+    if re.fullmatch(FARM_G, ch): farms.append(farm_of('else', [], ch))
+    else:
+        while ch:
+            m = re.match(r'(?:else )?if \((strpbrk|strstr)\(fmt_buf, "([^"]*)"\)\) \{', ch) or re.match(r"(?:else )?if \((strchr)\(fmt_buf, '((?:\\.|[^'\\])+)'\)\) \{", ch)
+            final = False
+            if m: kind, arg, k = m.group(1), _cbytes(m.group(2), W), m.end() - 1
+            else:
+                m = re.match(r'else \{', ch)
+                if not m: raise ExtractError(f'{W}: floating branch: expected a test on fmt_buf or a final else near `{ch[:100]}`')
+                kind, arg, k, final = 'else', [], m.end() - 1, True
+            e = balanced(ch, k, '{', '}')
+            farms.append(farm_of(kind, arg, ch[k + 1:e - 1].strip()))
+            ch = ch[e:].strip()
+            if final and ch: raise ExtractError(f'{W}: floating branch: code after the final else: `{ch[:80]}`')
     # ---- %c
     _, cb = find_branch(lambda t: re.fullmatch(r"\*fmt is 'c'", t), '`%c`')
     mc = re.fullmatch(r"(" + TYPE_RE + r") tmp = (?:'\\0'|0); int err = format_from\(input, pos, fmt_buf, &tmp, &off\); if \(err < 1\) \{ throw\(FormatError, \"Unable to input Char!\"\); \} pos \+= off; assign\(a, \$I\((.*)\)\);", cb)
@@ -489,6 +660,7 @@ def gen_file_scan(repo):
     bl = lambda x: 'true' if x else 'false'
     arms_txt = ',\n   '.join(f'⟨{lean_str(k)}, {lb(a)}, {lean_cty(o)}, {bl(d)}, {fin}⟩' for k, a, o, d, fin in arms)
     pbr_txt = ', '.join(f'({lean_str(a)}, {lean_str(b)})' for a, b in pbr)
+    farms_txt = ',\n   '.join(f'⟨{lean_str(k)}, {lb(a)}, {lean_str(o)}, {lean_str(fin)}⟩' for k, a, o, fin in farms)
     pbm_txt = ', '.join(f'({lean_str(a)}, {lean_str(b)})' for a, b in PRINT_BRANCHES)
     return HEADER + f"""namespace CelloGen.FileScan
 
@@ -515,6 +687,15 @@ structure Arm where
   fin : WExpr
 deriving DecidableEq, Repr, Inhabited
 
+/-- one arm of the chain of tests on `fmt_buf` in the FLOATING branch: the test and its argument, the C type of the object whose
+    address scanf gets (`float` / `double` / `long double`), and the expression inside `$F(…)` ("tmp" = that object) -/
+structure FArm where
+  test : String
+  arg : List Nat
+  obj : String
+  fin : String
+deriving DecidableEq, Repr, Inhabited
+
 /-- `<type> tmp = 0;` at the head of the integer branch: what `$I(tmp)` converts from -/
 def tmpTy : CTy := {lean_cty(tmp_ty)}
 /-- `strchr("…", *fmt)` that selects the integer branch -/
@@ -528,6 +709,8 @@ def intArms : List Arm :=
     first and the second arm -/
 def floatConvs : List Nat := {lb(flt_convs)}
 def floatWide : List Nat := {lb(flt_wide)}
+def floatArms : List FArm :=
+  [{farms_txt}]
 def floatThenTy : String := {lean_str(flt_then)}
 def floatElseTy : String := {lean_str(flt_else)}
 
